@@ -257,6 +257,7 @@ func TestC18_Concurrent(t *testing.T) {
 		c := metrics.NewCollector()
 		pm := metrics.NewPerformanceMonitor()
 		tags := map[string]string{"a": "1", "b": "2", "c": "3"}
+		bigObs := []float64{20000, 1e6, 50000, 10001, 9999, 1e9, 12000, 3}
 		var wg sync.WaitGroup
 		for i := 0; i < g; i++ {
 			wg.Add(1)
@@ -265,6 +266,7 @@ func TestC18_Concurrent(t *testing.T) {
 				for j := 0; j < k; j++ {
 					c.Counter("shared", rebuilt(tags, i+j)).Inc()
 					c.Histogram("h", rebuilt(tags, j)).Observe(float64(j % 7))
+					c.Histogram("big", rebuilt(tags, j)).Observe(bigObs[(i+j)%len(bigObs)]) // mostly beyond the top bucket boundary
 					pm.RecordSearchOperation(time.Millisecond, j, (i+j)%2 == 0, j)
 					pm.RecordDatabaseOperation("load", time.Millisecond, j%3 == 0)
 					if j%5 == 0 {
@@ -275,6 +277,18 @@ func TestC18_Concurrent(t *testing.T) {
 		}
 		wg.Wait()
 		n := int64(g * k)
+		if hb := c.Histogram("big", tags); hb.Count() != n {
+			t.Fatalf("histogram of large values counts %d after %d concurrent observations", hb.Count(), n)
+		} else {
+			prev := math.Inf(-1)
+			for _, p := range []float64{0, 1, 10, 50, 90, 99, 99.9, 99.99, 100} {
+				v := hb.Percentile(p)
+				if v < prev {
+					t.Fatalf("after %d concurrent observations of large values Percentile(%v) = %v, below the %v of a lower percentile", n, p, v, prev)
+				}
+				prev = v
+			}
+		}
 		if v := c.Counter("shared", tags).Value(); v != n {
 			t.Fatalf("shared counter = %d after %d concurrent increments", v, n)
 		}
